@@ -324,6 +324,16 @@ func faultOps() []*faultOp {
 
 				return r.Result, nil
 			}, next: showW5, nextWant: "omega"},
+		{name: "g.sendcommand.interim", perOp: true, build: buildGeneric("exec"),
+			// with interim prompt patterns the output is awaited through ReadUntilAnyPrompt (a separate branch of SendInputB)
+			run: func(s *sess, o []util.Option, _ time.Duration) (string, error) {
+				r, err := s.gd.SendCommand("show v7", append(o, opoptions.WithInterimPromptPattern([]*regexp.Regexp{regexp.MustCompile(`(?m)^\(interim-\d+\)$`)}))...)
+				if err != nil {
+					return "", err
+				}
+
+				return r.Result, nil
+			}, next: showW5, nextWant: "omega"},
 		{name: "g.sendcommands", perOp: true, build: buildGeneric("exec"),
 			run: func(s *sess, o []util.Option, _ time.Duration) (string, error) {
 				r, err := s.gd.SendCommands([]string{"show v7", "show z8"}, o...)
